@@ -958,6 +958,57 @@ theorem amdp_dense_reward_finite (evs : List Ev) (n s a : Nat) :
       exact (eqSmall_zero_iff 0).2 ⟨by linarith [tol_pos], by linarith [tol_pos]⟩
     simp [hne, isFin]
 
+theorem mem_le_accT (evs : List Ev) (hp : ∀ e ∈ evs, 0 ≤ e.p) (e : Ev) (he : e ∈ evs) (hk : e.keep = true) :
+    e.p ≤ accT evs e.a e.s e.s1 := by
+  induction evs with
+  | nil => cases he
+  | cons x r ih =>
+      have hr : ∀ y ∈ r, 0 ≤ y.p := fun y hy => hp y (by simp [hy])
+      have hnn := accT_nonneg r hr e.a e.s e.s1
+      have hx := hp x (by simp)
+      unfold accT at hnn ⊢
+      simp only [List.filter_cons]
+      rcases List.mem_cons.1 he with rfl | hmem
+      · simp only [hk, beq_self_eq_true, Bool.and_self, if_true, List.map, sumQ]
+        linarith
+      · have := ih hr hmem
+        unfold accT at this
+        split
+        · simp only [List.map, sumQ]; linarith
+        · exact this
+
+theorem accR_ne_zero_mem (sp : Bool) (evs : List Ev) (s a : Nat) (h : accR sp evs s a ≠ 0) :
+    ∃ e ∈ evs, e.keep = true ∧ e.a = a ∧ e.s = s := by
+  unfold accR at h
+  cases hf : evs.filter (fun e => e.keep && (e.a == a && e.s == s && (!sp || diffSmall (.fin 0) (.fin e.r)))) with
+  | nil => rw [hf] at h; simp [sumQ] at h
+  | cons e t =>
+      have hm : e ∈ evs.filter (fun e => e.keep && (e.a == a && e.s == s && (!sp || diffSmall (.fin 0) (.fin e.r)))) := by
+        rw [hf]; simp
+      obtain ⟨hmem, hP⟩ := List.mem_filter.1 hm
+      simp only [Bool.and_eq_true, beq_iff_eq] at hP
+      exact ⟨e, hmem, hP.1, hP.2.1.1, hP.2.1.2⟩
+
+/-- **amdp_valid, reward part, sparse** (`discretizeSparse`, the code as it is): every R(s,a) is finite — a non-zero
+    accumulated reward implies a kept contribution in that row, hence a row sum above the tolerance -/
+theorem amdp_sparse_reward_finite (evs : List Ev) (hp : ∀ e ∈ evs, 0 ≤ e.p) (n s a : Nat)
+    (hs1 : ∀ e ∈ evs, e.keep = true → e.s1 < n) : isFin (amdpRSparse evs n s a) = true := by
+  unfold amdpRSparse
+  by_cases hd : diffSmall (.fin 0) (.fin (accR true evs s a)) = true
+  · simp only [hd, if_true, qdivX]
+    have hne : accR true evs s a ≠ 0 := by
+      intro h0
+      rw [h0] at hd
+      have : eqSmall (.fin 0) (.fin 0) = true := (eqSmall_zero_iff 0).2 ⟨by linarith [tol_pos], by linarith [tol_pos]⟩
+      simp [diffSmall, this] at hd
+    obtain ⟨e, he, hk, rfl, rfl⟩ := accR_ne_zero_mem true evs _ _ hne
+    have h1 := mem_le_accT evs hp e he hk
+    have h2 := keep_pos e (hp e he) hk
+    have h3 := (le_sumQ_range n (accT evs e.a e.s) (fun j _ => accT_nonneg evs hp e.a e.s j) e.s1 (hs1 e he hk)).1
+    have hpos : 0 < rowSumT evs n e.a e.s := by unfold rowSumT; linarith [tol_pos]
+    simp [ne_of_gt hpos, isFin]
+  · simp [hd, isFin]
+
 /-- FULL STATEMENT: `∀ evs n s a, isFin (amdpRDense AITB.Gen.Guards.amdpDenseGuardedDivide evs n s a)`.
     False of the code as first read (`R(s,a) /= T[a].row(s).sum()` unconditionally): for EVERY bucket nobody visited
     the reward is 0/0 = nan. -/
